@@ -10,6 +10,7 @@ package main
 
 import (
 	"context"
+	"errors"
 	"fmt"
 	"os"
 	"strings"
@@ -49,7 +50,30 @@ type cnode struct {
 	dm      *kvDMap
 	msg     *cronMsg
 	count   atomic.Int64
-	failPut atomic.Int32
+	fault   atomic.Value // "" | "err" | "tmo" | "tmoa": what the next claim write of this node runs into
+	ack     *ackCluster
+}
+
+// ackCluster is the node's REAL cluster engine behind a recording decorator: goakt's scheduler calls
+// ClaimScheduleFire on it, the engine's own answer (what the node was told about its claim) is kept for the trace.
+type ackCluster struct {
+	cluster.Cluster
+	last atomic.Value // "won" | "lost" | "tmo" | "err" | ""
+}
+
+func (a *ackCluster) ClaimScheduleFire(ctx context.Context, key string, ttl time.Duration) error {
+	err := a.Cluster.ClaimScheduleFire(ctx, key, ttl)
+	switch {
+	case err == nil:
+		a.last.Store("won")
+	case errors.Is(err, cluster.ErrScheduleFireClaimed):
+		a.last.Store("lost")
+	case errors.Is(err, context.DeadlineExceeded):
+		a.last.Store("tmo")
+	default:
+		a.last.Store("err")
+	}
+	return err
 }
 
 type cworld struct {
@@ -88,15 +112,26 @@ func newCWorldCron(names []string, cron string) *cworld {
 				w.puts = append(w.puts, putRec{node, strings.TrimPrefix(key, "schedule-fire::"), res})
 			}
 		}
+		n.fault.Store("")
 		n.dm.failPut = func(node, key string, nx bool) error {
-			if strings.HasPrefix(key, "schedule-fire::") && n.failPut.Load() > 0 {
-				n.failPut.Add(-1)
+			if !strings.HasPrefix(key, "schedule-fire::") {
+				return nil
+			}
+			switch n.fault.Swap("").(string) {
+			case "err":
 				return errInjected
+			case "tmo":
+				return errPutTimeout
+			case "tmoa":
+				return errPutTimeoutApplied
 			}
 			return nil
 		}
-		n.cl = cluster.NewVerif(sys.Name(), dns[i], n.dm, &fakeClient{nodes: dns, leader: names[0]})
-		if err := actor.VerifJoinCluster(ctx, sys, n.cl, dns[i], nil); err != nil {
+		// a short write timeout: a scripted slow claim write runs into the engine's own deadline (putRecordIfAbsent)
+		n.cl = cluster.NewVerif(sys.Name(), dns[i], n.dm, &fakeClient{nodes: dns, leader: names[0]}, cluster.WithWriteTimeout(40*time.Millisecond))
+		n.ack = &ackCluster{Cluster: n.cl}
+		n.ack.last.Store("")
+		if err := actor.VerifJoinCluster(ctx, sys, n.ack, dns[i], nil); err != nil {
 			fatal("join:", err)
 		}
 		sink, err := sys.Spawn(ctx, "sink-"+name, &sinkActor{n: &n.count})
@@ -140,7 +175,8 @@ func (w *cworld) reset() {
 	w.st.mu.Unlock()
 	for _, n := range w.nodes {
 		n.count.Store(0)
-		n.failPut.Store(0)
+		n.fault.Store("")
+		n.ack.last.Store("")
 	}
 }
 
@@ -234,9 +270,10 @@ func (w *cworld) replayClaim(id int, steps []cstep, tw *vtrace.Writer) string {
 			tw.Raw(map[string]any{"op": "Check", "n": st.N, "t": st.T, "r": obs})
 			lines++
 		case "Claim":
-			if st.R == "err" {
-				n.failPut.Store(1)
+			if st.R == "err" || st.R == "tmo" || st.R == "tmoa" {
+				n.fault.Store(st.R)
 			}
+			n.ack.last.Store("")
 			w.takePuts()
 			p, err := s.Step(name)
 			want := "done"
@@ -244,16 +281,30 @@ func (w *cworld) replayClaim(id int, steps []cstep, tw *vtrace.Writer) string {
 				want = "sched.tell"
 			}
 			ok = expect(p, err, want, st)
+			// r = what the registry did with the write; ack = what the real ClaimScheduleFire told the node; next = what the node does
+			consumed := (st.R == "err" || st.R == "tmo" || st.R == "tmoa") && n.fault.Load().(string) == ""
+			n.fault.Store("")
 			obs, key := "err", ""
+			if consumed && st.R != "tmoa" {
+				obs = st.R
+			}
 			for _, pr := range w.takePuts() {
 				key = pr.key
-				if pr.res == 1 {
-					obs = "won"
-				} else {
+				switch {
+				case pr.res == 0:
 					obs = "lost"
+				case consumed && st.R == "tmoa":
+					obs = "tmoa"
+				default:
+					obs = "won"
 				}
 			}
-			tw.Raw(map[string]any{"op": "Claim", "n": st.N, "t": st.T, "r": obs, "key": key, "fresh": key == freshKey(st.T)})
+			next := "done"
+			if err == nil && !p.Done {
+				next = strings.TrimPrefix(p.Point, "sched.")
+			}
+			tw.Raw(map[string]any{"op": "Claim", "n": st.N, "t": st.T, "r": obs, "ack": n.ack.last.Load().(string), "next": next,
+				"key": key, "fresh": key == "" || key == freshKey(st.T)})
 			lines++
 		case "Tell":
 			before := w.sinkTotal()
@@ -360,6 +411,7 @@ func schedLongStallMain(tfile string) {
 	for _, n := range w.nodes {
 		s.Control(n.cl)
 		s.Control(n.msg)
+		n.ack.last.Store("")
 	}
 	s.OnlyPoints("sched.job", "cluster.ClaimScheduleFire", "sched.tell")
 	tw.Raw(map[string]any{"op": "New", "id": 0, "nodes": w.order, "nticks": 1})
@@ -401,8 +453,11 @@ func schedLongStallMain(tfile string) {
 			key = pr.key
 			obs = map[int]string{1: "won", 0: "lost"}[pr.res]
 		}
-		tw.Raw(map[string]any{"op": "Claim", "n": n, "t": 1, "r": obs, "key": key, "fresh": true})
-		_ = p
+		next := "done"
+		if !p.Done {
+			next = strings.TrimPrefix(p.Point, "sched.")
+		}
+		tw.Raw(map[string]any{"op": "Claim", "n": n, "t": 1, "r": obs, "ack": w.nodes[n].ack.last.Load().(string), "next": next, "key": key, "fresh": true})
 		return obs
 	}
 	tell := func(n string) {
